@@ -44,7 +44,7 @@ What is read from the source:
   string(bytes)                     the bytes as text (the outcome's output is given as text)
   s.output(s.view())                the state is appended to `frames` (what the frame is drawn from)
   strings.Contains(a, b)            Go.Strings.contains
-  statements                        := = on locals, fields of the receiver, slice elements; if / else;
+  statements                        := = on locals, fields of the receiver, slice elements; `_ = e`; if / else;
                                     `return` inside the goroutine only
   expressions                       string / int literals, == != on strings, ints and bools, ! && ||,
                                     + on strings, comparisons of an error or a pointer with nil,
@@ -540,6 +540,11 @@ func (g *h17) assign(ind int, s *ast.AssignStmt) {
 			if rk != "?" {
 				r = g.fail("assignment from %s", exprFull(s.Rhs[0]))
 			}
+			g.line(ind, "let _ := "+r)
+			return
+		}
+		if lhs.Name == "_" && s.Tok == token.ASSIGN {
+			/* `_ = e`: e is evaluated (it may panic), its value dropped */
 			g.line(ind, "let _ := "+r)
 			return
 		}
